@@ -115,6 +115,147 @@ func reachability(body *ast.BlockStmt, target ast.Stmt) string {
 	return ""
 }
 
+// ---- canonical rendering of guard rows -------------------------------------------------
+// Rows must not depend on how adjacent guards are grouped nor on the names of locals:
+//   * a guard condition contributes one row per top-level `||` disjunct, in evaluation order
+//     (so `if a {X}; if b {X}` and `if a || b {X}` give the same rows);
+//   * a local variable (anything declared inside the case clause; `peer` and `m` are not
+//     locals) is replaced by its defining expression when it is defined exactly once, never
+//     reassigned, and that expression is a simple selector/index chain on peer or m;
+//     otherwise by a positional placeholder `$n` (n = order of declaration in the clause).
+
+type localEnv struct {
+	def   map[string]ast.Expr // single definition, if any
+	order map[string]int      // positional index
+	multi map[string]bool     // assigned more than once
+}
+
+func simpleSelector(e ast.Expr) bool {
+	switch x := e.(type) {
+	case *ast.Ident:
+		return x.Name == "peer" || x.Name == "m"
+	case *ast.SelectorExpr:
+		return simpleSelector(x.X)
+	case *ast.IndexExpr:
+		_, lit := x.Index.(*ast.BasicLit)
+		return lit && simpleSelector(x.X)
+	case *ast.ParenExpr:
+		return simpleSelector(x.X)
+	}
+	return false
+}
+
+func localsOf(clause ast.Node) *localEnv {
+	env := &localEnv{def: map[string]ast.Expr{}, order: map[string]int{}, multi: map[string]bool{}}
+	declare := func(id *ast.Ident, rhs ast.Expr) {
+		if id.Name == "_" || id.Name == "peer" || id.Name == "m" {
+			return
+		}
+		if _, seen := env.order[id.Name]; seen {
+			env.multi[id.Name] = true
+			return
+		}
+		env.order[id.Name] = len(env.order) + 1
+		if rhs != nil {
+			env.def[id.Name] = rhs
+		}
+	}
+	ast.Inspect(clause, func(n ast.Node) bool {
+		switch x := n.(type) {
+		case *ast.FuncLit:
+			return false
+		case *ast.AssignStmt:
+			for i, l := range x.Lhs {
+				id, ok := l.(*ast.Ident)
+				if !ok {
+					continue
+				}
+				if x.Tok == token.DEFINE {
+					var rhs ast.Expr
+					if len(x.Lhs) == len(x.Rhs) {
+						rhs = x.Rhs[i]
+					}
+					declare(id, rhs)
+				} else if _, isLocal := env.order[id.Name]; isLocal {
+					env.multi[id.Name] = true
+				}
+			}
+		case *ast.IncDecStmt:
+			if id, ok := x.X.(*ast.Ident); ok {
+				env.multi[id.Name] = true
+			}
+		case *ast.RangeStmt:
+			for _, e := range []ast.Expr{x.Key, x.Value} {
+				if id, ok := e.(*ast.Ident); ok && x.Tok == token.DEFINE {
+					declare(id, nil)
+				}
+			}
+		case *ast.DeclStmt:
+			if gd, ok := x.Decl.(*ast.GenDecl); ok {
+				for _, sp := range gd.Specs {
+					if vs, ok := sp.(*ast.ValueSpec); ok {
+						for _, id := range vs.Names {
+							declare(id, nil)
+							env.multi[id.Name] = true // `var x T` then assigned: not a simple definition
+						}
+					}
+				}
+			}
+		}
+		return true
+	})
+	return env
+}
+
+// canon renders an expression with locals normalised; unknown node kinds fall back to the
+// printer (fail-closed: the text then simply differs from the expected one if it matters).
+func (env *localEnv) canon(e ast.Expr) string {
+	switch x := e.(type) {
+	case *ast.Ident:
+		if n, isLocal := env.order[x.Name]; isLocal {
+			if d, ok := env.def[x.Name]; ok && !env.multi[x.Name] && simpleSelector(d) {
+				return env.canon(d)
+			}
+			return fmt.Sprintf("$%d", n)
+		}
+		return x.Name
+	case *ast.BasicLit:
+		return x.Value
+	case *ast.ParenExpr:
+		return "(" + env.canon(x.X) + ")"
+	case *ast.SelectorExpr:
+		return env.canon(x.X) + "." + x.Sel.Name
+	case *ast.IndexExpr:
+		return env.canon(x.X) + "[" + env.canon(x.Index) + "]"
+	case *ast.StarExpr:
+		return "*" + env.canon(x.X)
+	case *ast.UnaryExpr:
+		return x.Op.String() + env.canon(x.X)
+	case *ast.BinaryExpr:
+		return env.canon(x.X) + " " + x.Op.String() + " " + env.canon(x.Y)
+	case *ast.CallExpr:
+		var as []string
+		for _, a := range x.Args {
+			as = append(as, env.canon(a))
+		}
+		return env.canon(x.Fun) + "(" + strings.Join(as, ", ") + ")"
+	}
+	return uplOneLine(e)
+}
+
+// disjuncts flattens the top-level `||` of a condition, in evaluation order.
+func disjuncts(e ast.Expr) []ast.Expr {
+	switch x := e.(type) {
+	case *ast.ParenExpr:
+		return disjuncts(x.X)
+	case *ast.BinaryExpr:
+		if x.Op == token.LOR {
+			return append(disjuncts(x.X), disjuncts(x.Y)...)
+		}
+	}
+	return []ast.Expr{e}
+}
+
 func genUploadTable() {
 	f := parse("peer/peer.go")
 	var b strings.Builder
@@ -152,6 +293,7 @@ func genUploadTable() {
 			if !ok || len(cc.List) != 1 || uplOneLine(cc.List[0]) != "protocol.Request" {
 				return true
 			}
+			env := localsOf(cc)
 			for _, st := range cc.Body {
 				ifs, ok := st.(*ast.IfStmt)
 				if !ok {
@@ -161,13 +303,16 @@ func genUploadTable() {
 				ret := ""
 				if len(ifs.Body.List) == 1 && ifs.Else == nil && ifs.Init == nil {
 					if r, ok := ifs.Body.List[0].(*ast.ReturnStmt); ok && len(r.Results) == 1 {
-						ret = uplOneLine(r.Results[0])
+						ret = env.canon(r.Results[0])
 					}
 				}
 				if ret == "" {
 					break
 				}
-				guards = append(guards, uplOneLine(ifs.Cond)+" => "+ret)
+				// one row per top-level disjunct: grouping of adjacent guards is immaterial
+				for _, d := range disjuncts(ifs.Cond) {
+					guards = append(guards, env.canon(d)+" => "+ret)
+				}
 			}
 			return false
 		})
@@ -199,12 +344,12 @@ func genUploadTable() {
 					return true
 				}
 				nlimits++
-				rhs := "expr " + uplOneLine(be.Y)
+				rhs := "expr " + localsOf(cc).canon(be.Y)
 				switch y := be.Y.(type) {
 				case *ast.BasicLit:
 					rhs = "literal " + y.Value
 				case *ast.Ident:
-					if pkgConsts[y.Name] {
+					if _, isLocal := localsOf(cc).order[y.Name]; pkgConsts[y.Name] && !isLocal {
 						rhs = "const " + y.Name
 					}
 				}
